@@ -523,7 +523,8 @@ pub extern "C" fn vh_c03_deriv() {
         check(std::ptr::eq(d2, d3), 2);
         // every class id: the class derivative is the derivative for EVERY character of the class
         let ids: Vec<ClassId> = e.class_ids().collect();
-        check(ids.len() == e.num_deriv_classes(), 3);
+        // num_deriv_classes counts the interval classes only (documented)
+        check(ids.len() == e.num_deriv_classes() + if e.empty_complement() { 0 } else { 1 }, 3);
         let mut member = false;
         for cid in ids.iter() {
             let inc = in_class(e, *cid, c);
@@ -791,11 +792,13 @@ pub extern "C" fn vh_c16_incl() {
     let s = p2.build(&mut re, p2.root);
     let inc = r.included_in(s);
     check(!inc | !in1 | in2, 1);
-    // a union built from both never loses strings
-    let u = re.union(r, s);
-    check(re.str_in_re(&smt(&w), u) == (in1 | in2), 2);
-    let u2 = re.union(s, r);
-    check(std::ptr::eq(u, u2), 3);
+    if param(3) == 1 {
+        // a union built from both never loses strings
+        let u = re.union(r, s);
+        check(re.str_in_re(&smt(&w), u) == (in1 | in2), 2);
+        let u2 = re.union(s, r);
+        check(std::ptr::eq(u, u2), 3);
+    }
     cover(1);
 }
 
@@ -842,7 +845,10 @@ fn history_step(re: &mut ReManager, pool: &mut Vec<RegLan>, sel: u32, x: u32) {
 #[no_mangle]
 pub extern "C" fn vh_c07_hashcons() {
     let cx = ctx();
-    let steps = param(3) as usize;
+    // extra = steps | concrete << 4 | sel0 << 8 | sel1 << 12 | sel2 << 16 | sel3 << 20
+    let extra = param(3);
+    let steps = (extra & 15) as usize;
+    let concrete = (extra >> 4) & 1 == 1;
     let w = any_string(cx.n);
     let mut sem = Sem::new(&cx.prog, &w);
     let want = sem.whole();
@@ -850,7 +856,7 @@ pub extern "C" fn vh_c07_hashcons() {
     let mut sels = [0u32; 8];
     let mut i = 0;
     while i < 2 * steps {
-        sels[i] = pin(any_in(0, 7), 8);
+        sels[i] = if concrete { (extra >> (8 + 4 * i as u32)) & 7 } else { pin(any_in(0, 7), 8) };
         i += 1;
     }
     let mut re = ReManager::new();
